@@ -605,7 +605,7 @@ def both(tag, cases, bins, r=None):
         terms.append(tl)
         metas.append(fxs)
     flat = [t for tl in terms if tl for (_, _, t) in tl]
-    vals = vf.coq_eval(tag, PRE, flat, timeout=1500) if flat else []
+    vals = vf.coq_eval(tag, PRE, flat, shards=min(vf.NCPU, max(1, len(flat))), timeout=1500) if flat else []
     vi = iter(vals)
     results = []      # per case: list of (scenario, impl_line, model_line)
     for c, im, tl, fxs in zip(cases, impl, terms, metas):
@@ -728,3 +728,25 @@ def run(tier, seed, replay=None):
     r.phase("P4_correspondence", cases=len(cases), scenarios=nscen, differing=ndiff)
     r.phase("P5_oracle", failing=sum(1 for o in oracle if o != "ok"))
     return r.finish()
+
+
+MANIFEST = {
+    "category": "proof",
+    "text": ("Coq theorems (no axioms) over an executable model of PlaybackCursor::seek_to/step, replay_worldline_state_at, "
+             "restore_replay_base (target+1 checkpoint lookup), advance_replay_state (per-tick root/commit/digest/receipt "
+             "verification, replay metadata), add_checkpoint validation and LocalProvenanceStore::fork, parametric in the state, "
+             "patch application, state root and hashes: after ANY sequence of seeks/steps/mode, pin and role changes and "
+             "checkpoints taken from the cursor, the cursor holds exactly the state replayed from U0 for its tick; replay depends "
+             "on the entry prefix only; forks (entries and copied checkpoints) replay like their source. Tied to /repo by driving "
+             "a real WorldlineRuntime through super_tick on generated intents, recording the live state per tick, and running real "
+             "cursors/checkpoints/forks: every (checkpoint subset, start, target) triple for histories <= 6 ticks, random op "
+             "sequences on longer ones, forks at every tick; each reached state is compared with the live recording (oracle) and "
+             "each outcome (Ok/error kind+tick, tick, state identity incl. partial states after injected verification failures) "
+             "with the model."),
+    "note": ("Trusted: Coq kernel + vm_compute; python generator/renderer; harness c07.rs (state dump abstraction, TamperStore "
+             "read wrapper used to inject verification failures); blake3 crate. Modelled rather than verified: the seek/replay/"
+             "checkpoint/fork control logic as Gallina functions; patch application, state root and commit hash are parameters "
+             "(C04/C06/C05). Restore-vs-advance decisions are observable only through injected failures; on untampered histories "
+             "the tie is by outcome. After a failed forward seek the real cursor keeps a partially advanced state (documented by "
+             "SeekError; outside the property's quantifier)."),
+}
